@@ -100,7 +100,7 @@ var (
 	oidRSASHA384   = []byte{0x2a, 0x86, 0x48, 0x86, 0xf7, 0x0d, 0x01, 0x01, 0x0c}
 	oidRSASHA512   = []byte{0x2a, 0x86, 0x48, 0x86, 0xf7, 0x0d, 0x01, 0x01, 0x0d}
 	oidRSAPSS      = []byte{0x2a, 0x86, 0x48, 0x86, 0xf7, 0x0d, 0x01, 0x01, 0x0a}
-	oidEd25519     = []byte{0x2b, 0x65, 0x70} // 1.3.101.112
+	oidEd25519     = []byte{0x2b, 0x65, 0x70}                                           // 1.3.101.112
 	oidCurveSM2    = []byte{0x06, 0x08, 0x2a, 0x81, 0x1c, 0xcf, 0x55, 0x01, 0x82, 0x2d} // 1.2.156.10197.1.301 (full TLV)
 	oidCurveP256   = []byte{0x06, 0x08, 0x2a, 0x86, 0x48, 0xce, 0x3d, 0x03, 0x01, 0x07} // 1.2.840.10045.3.1.7 (full TLV)
 )
